@@ -471,3 +471,137 @@ func c04HugeUpload(e *Env) {
 		e.Probe("transfer.completed")
 	}
 }
+
+// c04ScriptedFetch: the real endpoint is the server of a block-wise *response*; a scripted client fetches it block by
+// block and misbehaves in between - it starts the same request over (same token, new message ID, no Block2) while
+// the transfer is still cached, repeats a block request, asks for a block again after a pause longer than the
+// transfer timeout. Whatever it puts together from blocks that belong to one generation must be the body the
+// application supplied; restarts are answered somehow (an error is fine), never with a body that is not the body.
+func c04ScriptedFetch(e *Env) {
+	t := e.Tape
+	tr := []string{TrUDP, TrTCP, TrDTLS}[t.Weighted(3, 2, 1)]
+	szx := blockwise.SZX(t.Choose(2))
+	bs := 16 << uint(szx)
+	body := Body(500, (3+t.Choose(4))*bs-t.Choose(bs))
+	runs := 0
+	router := mux.NewRouter()
+	router.DefaultHandle(mux.HandlerFunc(func(rw mux.ResponseWriter, r *mux.Message) {
+		if r.Code() == codes.Empty {
+			return
+		}
+		e.mu.Lock()
+		runs++
+		e.mu.Unlock()
+		e.Notef("handler runs (#%d)", runs)
+		_ = rw.SetResponse(codes.Content, message.AppOctets, bytes.NewReader(body), message.Option{ID: message.ETag, Value: []byte{0xe7}})
+	}))
+	w := c04World(e, tr, szx, router)
+	if w == nil {
+		return
+	}
+	e.Logf("cfg transport=%s block=%d body=%d", tr, bs, len(body))
+	e.NonTrivial()
+	tok := []byte{0x5d, 0x01}
+	mid := uint16(2500)
+	type blk struct {
+		num  uint32
+		more bool
+		data []byte
+		code byte
+	}
+	var got []blk
+	w.OnRecv = func(m *WMsg) {
+		if IsDatagram(tr) && (m.Type == TRST || (m.Type == TACK && m.Code == 0)) {
+			return
+		}
+		if !bytes.Equal(m.Token, tok) {
+			return
+		}
+		b := blk{code: m.Code, data: m.Payload}
+		if v, ok := m.OptUint(OptBlock2); ok {
+			b.num, b.more, _ = ParseBlock(v)
+		}
+		got = append(got, b)
+	}
+	request := func(num int, withBlock bool, label string) {
+		mid++
+		m := &WMsg{Type: TCON, Code: 1, MID: mid, Token: tok, Opts: []WOpt{{Num: OptURIPath, Val: []byte("big")}}}
+		if withBlock {
+			m.Opts = append(m.Opts, UintOpt(OptBlock2, BlockOpt(uint32(num), false, uint32(szx))))
+		}
+		it := w.Queue(m, label)
+		e.Logf("client sends %s", label)
+		w.Emit(it, false)
+		e.Wait()
+		w.Pump()
+	}
+	nb := (len(body) + bs - 1) / bs
+	request(0, false, "request")
+	var assembled []byte
+	clean := true // no restart / pause since block 0 of the current generation
+	next := 1
+	if len(got) > 0 && got[len(got)-1].code == 0x45 && got[len(got)-1].num == 0 {
+		assembled = append(assembled, got[len(got)-1].data...)
+	}
+	for step := 0; step < 3*nb && next < nb && e.Budget(); step++ {
+		switch t.Weighted(8, 2, 2, 1) {
+		case 1: // the client starts over while the server still holds the transfer
+			e.Fault("fetch.restartWhileCached")
+			before := len(got)
+			request(0, false, "the same request again (new message ID, no Block2)")
+			assembled, next, clean = nil, 1, true
+			if len(got) > before && got[len(got)-1].code == 0x45 && got[len(got)-1].num == 0 {
+				assembled = append(assembled, got[len(got)-1].data...)
+			} else {
+				clean = false // refused (4.08 or the like): nothing to build on
+				next = nb
+			}
+			continue
+		case 2: // a block request is repeated
+			if next > 1 {
+				e.Fault("fetch.blockRequestedTwice")
+				request(next-1, true, fmt.Sprintf("request for block %d again", next-1))
+			}
+			continue
+		case 3: // longer than the transfer timeout
+			e.Fault("time.transferTimeout")
+			e.Sleep(6 * time.Second)
+			w.Tick(time.Now())
+			e.Wait()
+			clean = false // the server may have to run the handler again for the rest: still the same body
+		}
+		before := len(got)
+		request(next, true, fmt.Sprintf("request for block %d", next))
+		if len(got) == before {
+			break
+		}
+		b := got[len(got)-1]
+		if b.code != 0x45 || int(b.num) != next {
+			break
+		}
+		assembled = append(assembled, b.data...)
+		next++
+		if !b.more {
+			break
+		}
+	}
+	_ = clean
+	// every 2.05 block must be the right slice of the body, whatever generation it belongs to
+	for _, b := range got {
+		if b.code != 0x45 {
+			continue
+		}
+		lo := int(b.num) * bs
+		hi := min(lo+bs, len(body))
+		if lo > len(body) || !bytes.Equal(b.data, body[lo:hi]) || b.more != (hi < len(body)) {
+			e.Violate("C04.R1", "block-is-not-a-slice-of-the-body:scripted-fetch", "block %d (more=%v, %d bytes) is not bytes %d..%d of the %d byte body", b.num, b.more, len(b.data), lo, hi, len(body))
+			break
+		}
+	}
+	if next >= nb && len(assembled) > 0 && len(assembled) >= len(body) && !bytes.Equal(assembled, body) {
+		e.Violate("C04.R1", "body-is-a-mixture:scripted-fetch", "the client put %d bytes together from consecutive blocks, the application supplied %d", len(assembled), len(body))
+	}
+	if bytes.Equal(assembled, body) {
+		e.Probe("transfer.completed")
+	}
+}
